@@ -241,7 +241,13 @@ class WrappersDriver:
             else:
                 w.do("1", "call", run)
             if self.s["kind"].startswith("asynchronous"):
-                self.started.wait(60)
+                # wait until the function runs on its thread - or until the call is over without it ever having run (a call
+                # that fails before the function is reached must not stall the check)
+                for _ in range(60000):
+                    if self.started.is_set() or w.status("1") != "busy":
+                        break
+                    w.loop.quiesce()
+                    real_wait(0.001)
                 w.loop.quiesce()
                 if w.status("1") == "busy":
                     return self._obs("running")
